@@ -127,6 +127,8 @@ fn gen_circuit(rng: &mut Rng) -> Option<Circuit> {
         })
         .collect();
     let gates2 = gates.clone();
+    let out_kind = if rng.bool() { 0 } else { rng.range(1, 4) };
+    let extra = (rng.usize(n_in + n_gates), rng.usize(n_in + n_gates));
     let c = build_context(&vec![scalar_type(BIT); n_in], move |g: &Graph, ins: &[Node]| {
         let mut pool: Vec<Node> = ins.to_vec();
         for (op, a, b) in gates2.iter() {
@@ -138,9 +140,19 @@ fn gen_circuit(rng: &mut Rng) -> Option<Circuit> {
             };
             pool.push(n);
         }
-        Ok(pool.last().unwrap().clone())
+        // output: the last gate, or a tuple / vector of the last gate and other wires (local
+        // multi-argument operations must not let an un-reshared product through)
+        let last = pool.last().unwrap().clone();
+        match out_kind {
+            0 => Ok(last),
+            1 => g.create_tuple(vec![last, pool[extra.0].clone()]),
+            2 => g.create_tuple(vec![pool[extra.0].clone(), last, pool[extra.1].clone()]),
+            3 => g.create_vector(scalar_type(BIT), vec![pool[extra.0].clone(), last]),
+            _ => g.create_tuple(vec![last.clone(), pool[extra.0].clone()])?.tuple_get(0),
+        }
     })
     .ok()?;
+    desc.push(format!("out_kind={} extra={:?}", out_kind, extra));
     for (op, a, b) in gates.iter() {
         desc.push(match op {
             0 | 1 => format!("AND({},{})", a, b),
